@@ -695,6 +695,13 @@ pub fn finish(def: &PropertyDef, cfg: &Cfg, stats: &Stats, started: Instant) -> 
     for (k, (n, what)) in &known_hits {
         println!("KNOWN-FINDING: property={} {} ({} cases this run; {})", def.id, what, n, k);
     }
+    // every listed open finding of this property gets its line, also when this run's sample did not meet it
+    for k in known.iter().filter(|k| k.property == def.id && k.status == "open") {
+        let key = format!("{} [{}]", k.signature, k.trigger);
+        if !known_hits.contains_key(&key) {
+            println!("KNOWN-FINDING: property={} {} (0 cases this run; {})", def.id, k.what, key);
+        }
+    }
     for (v, path) in &new_violations {
         println!("VIOLATION property={} replay={}", def.id, path.display());
         println!("  signature: {}  tags: {:?}  case: {}#{}", v.signature, v.tags, v.generator, v.index);
